@@ -208,7 +208,7 @@ func runC07(c *lib.Ctx) {
 		return c.Findings.Listed("C07", "cell="+cell+" exit="+exit+" ")
 	}
 	sweep := c07SweepCases()
-	evRun(c, sweep, c.Scale(15000, 250000), true, avoid, c07Relies)
+	evRun(c, sweep, c.Scale(15000, 150000), true, avoid, c07Relies)
 	keys := make([]string, 0, len(unknown))
 	for k := range unknown {
 		keys = append(keys, k)
